@@ -27,7 +27,14 @@
      [5;r;0] container SetPromise (r=0) / SetResult (r=1, returned true) returned
      [6;q;c] GetPromise returned promise q-1 (0 nil), c = its wait channel is closed now
      [7;0;0] spinning (harness only: passed its gate more than 3 times running alone)   [9;0;0] panicked
-   Errors: 0 nil, 1 context.Canceled, 2 context.DeadlineExceeded, 3+i other error i. *)
+   Errors: 0 nil, 1 context.Canceled, 2 context.DeadlineExceeded, 3+i other error i; in observations also 98 = the cause of a
+   context cancelled with a cause, 99 = any other error value (neither is ever passed to SetResult by the harness).
+   Contexts: the harness hands the awaiters contexts of three flavours (plain WithCancel; ending like a deadline, Err() =
+   DeadlineExceeded; cancelled with a cause, Err() = Canceled and Cause = error 98), chosen from the number of awaiters
+   created before in the history.  The flavour is not part of the event: every await of Promise / PromiseContainer returns
+   the literal context.Canceled (error 1) on account of an ended context, whatever the context's own Err() or cause, and
+   that is what the model predicts and what clauses 2 / 3 accept ((0, 1) under a cancelled context); an await that hands on
+   the context's own error or cause is observed as (0, 2) / (0, 98) and fails clause 2 / 3. *)
 From Util Require Import Common.Base Common.ListLemmas Promise.Model.
 
 Local Open Scope N_scope.
